@@ -41,9 +41,9 @@ def churn_session(r, cycles, server_side=False, srv=False):
 
 def sessions(ctx, rep, cfg):
     # P2: behaviours of the bounded model, both dialects
-    seqs, r = mcreplay.behaviours(rep, 'MC_Session.tla', cfg, 'well-formed histories of one connection')
+    seqs, r = mcreplay.behaviours(rep, 'MC_Session.tla', cfg, 'well-formed histories of one connection', override={'MaxLen': 6})
     rnd = ctx.rnd
-    keep = ctx.pick(1200, len(seqs))
+    keep = ctx.pick(1200, 20000)
     if len(seqs) > keep:
         seqs = rnd.sample(seqs, keep)
     rep.extra['model_behaviours_replayed'] = len(seqs)
